@@ -1336,13 +1336,13 @@ pub fn run(args: &Args) -> i32 {
         check.section(
             "single-field",
             move || (cert_spec_strategy(pool.clone(), false), change_strategy(pool.clone(), false)).prop_map(|(base, change)| FieldCase { base, change }),
-            t.pick(24_000, 600_000),
+            t.pick(120_000, 1_500_000),
             |c: &FieldCase| field_case(c, &known_open),
         );
     }
     {
         let pool = pool.clone();
-        check.section("protocol-message-pairs", move || msg_case_strategy(pool.clone()), t.pick(12_000, 300_000), msg_case);
+        check.section("protocol-message-pairs", move || msg_case_strategy(pool.clone()), t.pick(60_000, 800_000), msg_case);
     }
     {
         let pool = pool.clone();
@@ -1363,7 +1363,7 @@ pub fn run(args: &Args) -> i32 {
                 )
                     .prop_map(|(ctx, src, prev, reser)| WireCase { ctx, src, prev, reser })
             },
-            t.pick(8000, 200_000),
+            t.pick(40_000, 500_000),
             |c: &WireCase| wire_case(c, known_phi_open),
         );
     }
